@@ -89,6 +89,10 @@ pub enum Frag {
   Colliding(u16),
   /// Explicit, fresh fragment that begins with the letters `did` (`didcomm-<op index>`).
   DidPrefixed,
+  /// No fragment, and the storage's `generate` returns a JWK without `kid`: there is nothing to name the method by.
+  NoKid,
+  /// Explicit, fresh fragment; the storage's `generate` returns a JWK without `kid`.
+  GivenNoKid,
 }
 
 #[derive(Debug, Clone, Serialize, Deserialize)]
@@ -462,12 +466,13 @@ fn run_history<D: TestDoc>(case: &Case) -> Result<Trace, Viol> {
     let (kind, outcome) = match op {
       Op::Generate { frag, scope } => {
         let (fragment, colliding) = match frag {
-          Frag::Given => (Some(format!("g{index}")), false),
-          Frag::FromKid => (None, false),
+          Frag::Given | Frag::GivenNoKid => (Some(format!("g{index}")), false),
+          Frag::FromKid | Frag::NoKid => (None, false),
           Frag::DidPrefixed => (Some(format!("didcomm-{index}")), false),
           Frag::Colliding(i) if !names.is_empty() => (Some(names[pick(*i, names.len())].clone()), true),
           Frag::Colliding(_) => (Some(format!("g{index}")), false),
         };
+        ctl.set_strip_kid(matches!(frag, Frag::NoKid | Frag::GivenNoKid));
         ctl.arm();
         let r = catch(|| {
           block_on(doc.generate_method(
@@ -479,6 +484,7 @@ fn run_history<D: TestDoc>(case: &Case) -> Result<Trace, Viol> {
           ))
         });
         ctl.disarm();
+        ctl.set_strip_kid(false);
         let outcome = match r {
           Ok(Ok(f)) => Outcome::Ok(f),
           Ok(Err(e)) => Outcome::Err {
@@ -817,6 +823,18 @@ pub fn check(case: &Case, obs: &mut Obs) -> CheckResult {
   if trace.calls < case.plan.iter().rposition(|f| *f).map_or(0, |i| i + 1) {
     obs.label("plan-longer-than-history");
   }
+  for (op, step) in case.ops.iter().zip(&trace.steps) {
+    if let Op::Generate { frag: frag @ (Frag::NoKid | Frag::GivenNoKid), .. } = op {
+      let how = if matches!(frag, Frag::NoKid) { "no-fragment" } else { "fragment-given" };
+      let out = match &step.outcome {
+        Outcome::Ok(_) => "ok",
+        Outcome::Err { undo_failed: true, .. } => "undo-failed",
+        Outcome::Err { .. } => "err",
+        Outcome::Panicked(_) => "panic",
+      };
+      obs.label(format!("storage-jwk-without-kid:{how}={out}"));
+    }
+  }
   for step in &trace.steps {
     if let Err(v) = judge_step(step, obs) {
       // The engine only reports shrunk cases; VCHECK_DEBUG=1 shows a violation when it is first seen, which is
@@ -887,7 +905,7 @@ fn generate_shapes() -> Vec<Case> {
   let mut v = Vec::new();
   for doc in DOCS {
     for scope in 0..6u8 {
-      for frag in [Frag::Given, Frag::FromKid, Frag::DidPrefixed] {
+      for frag in [Frag::Given, Frag::FromKid, Frag::DidPrefixed, Frag::NoKid, Frag::GivenNoKid] {
         v.push(shape(doc, vec![], false, vec![Op::Generate { frag, scope }]));
       }
       // populated: names = [k0, k1, x-gp, x-emb, svc, dangling]; collide with a backed general-purpose method, a
@@ -897,6 +915,8 @@ fn generate_shapes() -> Vec<Case> {
       for frag in [
         Frag::Given,
         Frag::FromKid,
+        Frag::NoKid,
+        Frag::GivenNoKid,
         Frag::Colliding(0),
         Frag::Colliding(11000),
         Frag::Colliding(22000),
@@ -975,6 +995,8 @@ fn op_strategy() -> impl Strategy<Value = Op> {
     3 => Just(Frag::FromKid),
     1 => any::<u16>().prop_map(Frag::Colliding),
     1 => Just(Frag::DidPrefixed),
+    1 => Just(Frag::NoKid),
+    1 => Just(Frag::GivenNoKid),
   ];
   prop_oneof![
     4 => (frag, 0u8..6).prop_map(|(frag, scope)| Op::Generate { frag, scope }),
@@ -1047,6 +1069,9 @@ pub fn run(ctx: &mut Ctx) {
   ] {
     ctx.require_class(class, 2);
   }
+  ctx.require_class("tree-generate:storage-jwk-without-kid:no-fragment=err", 10);
+  ctx.require_class("tree-generate:storage-jwk-without-kid:fragment-given=ok", 10);
+  ctx.require_class("histories:storage-jwk-without-kid:no-fragment=err", 100);
   ctx.require_class("tree-sequences:rollback-branch", 100);
   ctx.require_class("histories:rollback-branch", 500);
   ctx.require_class("histories:op-faults-2+", 100);
